@@ -26,6 +26,7 @@ pub fn single(name: &str, cfg: Scenario, ack: bool, size: u64, dev: usize) -> DS
         strays: false,
         horizon: 300,
         seq_start: None,
+        bursts: false,
     }
 }
 
@@ -193,8 +194,16 @@ pub fn c11_scenarios(tier: Tier) -> Vec<DScn> {
         strays: false,
         horizon: 400,
         seq_start: None,
+        bursts: false,
     };
     v.push(base.clone());
+    // a burst of copies of one PDU, more than the command queue of its transaction holds
+    let mut bu = base.clone();
+    bu.name = "c11 two daemons: T1 A->B ack, T2 B->A unack + burst".into();
+    bu.bursts = true;
+    bu.overtake = false;
+    bu.dev_bound = dev.min(2);
+    v.push(bu);
     // the sequence counter at the top of its width: ids handed out for Put stay distinct
     let mut w = base.clone();
     w.name = "c11 sequence counter wraps: three Puts A->B from U8(254)".into();
